@@ -1,3 +1,262 @@
-(* C15 - placeholder statement file (theorems are added as they are proved). *)
-From Coq Require Import List ZArith Bool.
-From LW Require Import Base.Outcome Band.Channels Band.Planner Band.PlannerSpec.
+(* C15 - channel-plan state machine, CFList content, MAC-layer encodability of band outputs.
+   Statement file: each theorem is closed by [exact] of a lemma proved in
+   theories/Band, followed by Print Assumptions.
+
+   Vocabulary: [st] = channel tables of a band, [step] / [run] = AddChannel /
+   DisableUplinkChannelIndex / EnableUplinkChannelIndex and histories of them,
+   the [get_*] accessors (Channels.v, model of band.go after fix 6fac49b);
+   [chan_at u i] = the channel at index i of a table, [None] outside 0..len-1
+   (PlannerProofs.v); [spec_cflist], [matches_freq], [matches_freq_dr]
+   (ChannelsSpec.v, written from the property); the encoders (CrossLayer.v). *)
+From Coq Require Import List ZArith Bool String Sorting.Sorted.
+From LW Require Import Base.Outcome Band.Channels Band.ChannelsSpec Band.Planner Band.CrossLayer
+  Band.PlannerProofs Band.ChannelsProofs Band.CrossLayerProofs Band.ChannelsGenProofs Band.EndToEnd.
+From LWGen Require Import ChannelsGen KnownGen.
+Import ListNotations.
+Open Scope Z_scope.
+
+(* ---- index sets, for every state (hence after every history) ---------------------- *)
+
+Theorem C15_all_indices : forall (s : st) i, In i (get_uplink_channel_indices s) <-> 0 <= i < zlen (up s).
+Proof. exact all_indices. Qed.
+Print Assumptions C15_all_indices.
+
+(* enabled and disabled partition all indices: both ascending (no repetition),
+   inside the range, and every index is in exactly one of them *)
+Theorem C15_enabled_disabled_partition : forall (s : st),
+  let a := get_enabled_uplink_channel_indices s in
+  let b := get_disabled_uplink_channel_indices s in
+  StronglySorted Z.lt a /\ StronglySorted Z.lt b /\
+  (forall i, In i a -> 0 <= i < zlen (up s)) /\ (forall i, In i b -> 0 <= i < zlen (up s)) /\
+  (forall i, 0 <= i < zlen (up s) -> (In i a <-> ~ In i b)).
+Proof. exact enabled_disabled_partition. Qed.
+Print Assumptions C15_enabled_disabled_partition.
+
+Theorem C15_standard_custom_partition : forall (s : st),
+  let a := get_custom_uplink_channel_indices s in
+  let b := get_standard_uplink_channel_indices s in
+  StronglySorted Z.lt a /\ StronglySorted Z.lt b /\
+  (forall i, In i a -> 0 <= i < zlen (up s)) /\ (forall i, In i b -> 0 <= i < zlen (up s)) /\
+  (forall i, 0 <= i < zlen (up s) -> (In i a <-> ~ In i b)).
+Proof. exact standard_custom_partition. Qed.
+Print Assumptions C15_standard_custom_partition.
+
+(* ---- histories: any list of calls with arbitrary integer arguments ----------------- *)
+
+(* the complete effect of a history on the tables: configuration untouched,
+   downlink table = old ++ added channels, uplink table = old ++ added channels
+   up to the enabled flags *)
+Theorem C15_history_tables : forall (ops : list op) (s : st),
+  let s' := run s ops in
+  extra s' = extra s /\ cfmin s' = cfmin s /\ cfmax s' = cfmax s /\ txp s' = txp s /\
+  down s' = down s ++ adds (extra s) ops /\
+  map ident (up s') = map ident (up s ++ adds (extra s) ops).
+Proof. exact run_tables. Qed.
+Print Assumptions C15_history_tables.
+
+(* standard channels are never altered *)
+Theorem C15_standard_never_altered : forall (s : st) (ops : list op) i c,
+  chan_at (up s) i = Some c ->
+  exists c', chan_at (up (run s ops)) i = Some c' /\
+             freq c' = freq c /\ minDR c' = minDR c /\ maxDR c' = maxDR c /\ custom c' = custom c.
+Proof. exact standard_channels_never_altered. Qed.
+Print Assumptions C15_standard_never_altered.
+
+Theorem C15_appended_are_custom : forall (s : st) (ops : list op) i c,
+  zlen (up s) <= i -> chan_at (up (run s ops)) i = Some c -> custom c = true.
+Proof. exact appended_channels_are_custom. Qed.
+Print Assumptions C15_appended_are_custom.
+
+(* from an all-standard initial plan (true of every band, C15_band_tables) the
+   standard indices stay 0..n0-1 and the custom ones are n0..n-1 *)
+Theorem C15_standard_indices_fixed : forall (s : st) (ops : list op) i,
+  (forall c, In c (up s) -> custom c = false) ->
+  (In i (get_standard_uplink_channel_indices (run s ops)) <-> 0 <= i < zlen (up s)) /\
+  (In i (get_custom_uplink_channel_indices (run s ops)) <-> zlen (up s) <= i < zlen (up (run s ops))).
+Proof. exact standard_indices_fixed. Qed.
+Print Assumptions C15_standard_indices_fixed.
+
+(* a valid Disable / Enable changes exactly that channel's enabled flag *)
+Theorem C15_set_enabled_effect : forall (s : st) (v : bool) (i j : Z), 0 <= i < zlen (up s) ->
+  let s' := fst (step s (if v then Enable i else Disable i)) in
+  chan_at (up s') j = if j =? i then option_map (set_enabled v) (chan_at (up s) i) else chan_at (up s) j.
+Proof. exact set_enabled_effect. Qed.
+Print Assumptions C15_set_enabled_effect.
+
+(* ---- index errors, never panics: for EVERY integer argument -------------------------- *)
+
+Theorem C15_call_outcomes : forall (s : st) o,
+  snd (step s o) = match o with
+                   | AddChannel _ _ _ => if extra s then Ok tt else Err
+                   | Disable i | Enable i => if (0 <=? i) && (i <? zlen (up s)) then Ok tt else Err
+                   end.
+Proof. exact step_outcome. Qed.
+Print Assumptions C15_call_outcomes.
+
+Theorem C15_history_never_panics : forall (ops : list op) (s : st), Forall (fun o => o <> Panic) (run_outcomes s ops).
+Proof. exact history_never_panics. Qed.
+Print Assumptions C15_history_never_panics.
+
+Theorem C15_accessors_never_panic : forall (s : st) i f d dr,
+  get_uplink_channel s i <> Panic /\ get_downlink_channel s i <> Panic /\
+  get_tx_power_offset s i <> Panic /\ get_uplink_channel_index s f d <> Panic /\
+  get_uplink_channel_index_for_frequency_dr s f dr <> Panic.
+Proof. exact accessors_never_panic. Qed.
+Print Assumptions C15_accessors_never_panic.
+
+Theorem C15_get_uplink_channel : forall (s : st) i,
+  match chan_at (up s) i with
+  | Some c => get_uplink_channel s i = Ok c
+  | None => get_uplink_channel s i = Err
+  end.
+Proof. exact get_uplink_channel_spec. Qed.
+Print Assumptions C15_get_uplink_channel.
+
+Theorem C15_invalid_index_is_error : forall (s : st) i, ~ (0 <= i < zlen (up s)) ->
+  get_uplink_channel s i = Err /\
+  snd (step s (Disable i)) = Err /\ fst (step s (Disable i)) = s /\
+  snd (step s (Enable i)) = Err /\ fst (step s (Enable i)) = s.
+Proof. exact invalid_index_is_error. Qed.
+Print Assumptions C15_invalid_index_is_error.
+
+Theorem C15_invalid_downlink_index_is_error : forall (s : st) i,
+  ~ (0 <= i < zlen (down s)) -> get_downlink_channel s i = Err.
+Proof. exact invalid_downlink_index_is_error. Qed.
+Print Assumptions C15_invalid_downlink_index_is_error.
+
+(* ---- lookups return an index whose channel matches -------------------------------------- *)
+
+(* by frequency: the FIRST matching index, and an error exactly when none matches *)
+Theorem C15_lookup_by_frequency : forall (s : st) f d,
+  match get_uplink_channel_index s f d with
+  | Ok i => matches_freq (up s) f d i = true /\ forall j, 0 <= j < i -> matches_freq (up s) f d j = false
+  | Err => forall i, matches_freq (up s) f d i = false
+  | _ => False
+  end.
+Proof. exact uplink_channel_index_spec. Qed.
+Print Assumptions C15_lookup_by_frequency.
+
+Theorem C15_lookup_by_frequency_dr : forall (s : st) f dr i,
+  get_uplink_channel_index_for_frequency_dr s f dr = Ok i -> matches_freq_dr (up s) f dr i = true.
+Proof. exact uplink_channel_index_for_frequency_dr_sound. Qed.
+Print Assumptions C15_lookup_by_frequency_dr.
+
+(* ---- CFList content ------------------------------------------------------------------------ *)
+
+(* the model of GetCFList equals the description written from the property: first
+   five custom channels in the CFList data-rate range, in order (nothing when there
+   is none), or the exact enabled-channel masks from LoRaWAN 1.0.3 on *)
+Theorem C15_cflist_content : forall (s : st) (v : pversion),
+  get_cflist s v = spec_cflist (extra s) (cfmin s) (cfmax s) (up s) v.
+Proof. exact get_cflist_spec. Qed.
+Print Assumptions C15_cflist_content.
+
+Theorem C15_cflist_only_custom : forall (s : st) (v : pversion) fs f,
+  get_cflist s v = Some (CFChannels fs) -> In f fs ->
+  f = 0 \/ exists c, In c (up s) /\ custom c = true /\ freq c = f.
+Proof. exact cflist_only_custom. Qed.
+Print Assumptions C15_cflist_only_custom.
+
+(* ---- cross-layer: what a band produces goes through the MAC-layer encoders ---------------- *)
+
+(* the band's own frequencies and data-rates fit every frequency-carrying
+   command, for every band except the listed ones (finding C15-2) *)
+Theorem C15_band_tables : forall nm rep dw s, In (nm, rep, dw, s) configs ->
+  (forall c, In c (up s) -> custom c = false) /\
+  (In nm c15_unencodable_bands \/
+   forall c, In c (up s ++ down s) ->
+     freq_ok (freq c) = true /\ newchannel_freq_ok (freq c) = true /\ 0 <= minDR c <= 15 /\ 0 <= maxDR c <= 15).
+Proof.
+  intros nm rep dw s H. destruct (configs_spec nm rep dw s H) as [A [_ [_ B]]]. auto.
+Qed.
+Print Assumptions C15_band_tables.
+
+Theorem C15_ism2400_refuted :
+  exists rep dw s c, In ("ISM2400"%string, rep, dw, s) configs /\ In c (up s) /\ freq_ok (freq c) = false.
+Proof. exact ism2400_refuted. Qed.
+Print Assumptions C15_ism2400_refuted.
+
+(* a frequency that is a multiple of 100 Hz below 2^24 * 100 Hz encodes in the
+   24-bit field and decodes back; anything the field accepts decodes back *)
+Theorem C15_freq_field_roundtrip : forall f, freq_ok f = true ->
+  exists bs, freq3 f = Ok bs /\ List.length bs = 3%nat /\ Forall (fun b => 0 <= b < 256) bs /\ unfreq3 bs = f.
+Proof. exact freq3_roundtrip. Qed.
+Print Assumptions C15_freq_field_roundtrip.
+
+Theorem C15_freq_field_lossless_or_error : forall f bs, 0 <= f -> freq3 f = Ok bs -> unfreq3 bs = f.
+Proof. exact freq3_lossless. Qed.
+Print Assumptions C15_freq_field_lossless_or_error.
+
+Theorem C15_rxparamsetupreq : forall f dr, freq_ok f = true -> 0 <= dr <= 15 ->
+  exists bs, rxparamsetupreq_marshal f dr = Ok bs /\ rxparamsetupreq_unmarshal bs = Ok (f, dr).
+Proof. exact rxparamsetupreq_roundtrip. Qed.
+Print Assumptions C15_rxparamsetupreq.
+
+(* NewChannelReq: below 1.2 GHz in 100 Hz steps, from 2.4 GHz in 200 Hz steps ... *)
+Theorem C15_newchannelreq : forall ch f mx mn,
+  newchannel_freq_ok f = true -> 0 <= ch < 256 -> 0 <= mx <= 15 -> 0 <= mn <= 15 ->
+  exists bs, newchannelreq_marshal ch f mx mn = Ok bs /\ newchannelreq_unmarshal bs = Ok (ch, f, mx, mn).
+Proof. exact newchannelreq_roundtrip. Qed.
+Print Assumptions C15_newchannelreq.
+
+(* ... and not in between (finding C15-4, same root as C07-2) *)
+Theorem C15_newchannelreq_refuted :
+  exists bs, newchannelreq_marshal 3 1300000000 5 0 = Ok bs /\
+             newchannelreq_unmarshal bs = Ok (3, 2600000000, 5, 0).
+Proof. exact newchannelreq_refuted. Qed.
+Print Assumptions C15_newchannelreq_refuted.
+
+Theorem C15_dlchannelreq : forall ch f, freq_ok f = true -> 0 <= ch < 256 ->
+  exists bs, dlchannelreq_marshal ch f = Ok bs /\ dlchannelreq_unmarshal bs = Ok (ch, f).
+Proof. exact dlchannelreq_roundtrip. Qed.
+Print Assumptions C15_dlchannelreq.
+
+Theorem C15_beaconfreqreq : forall f, freq_ok f = true ->
+  exists bs, beaconfreqreq_marshal f = Ok bs /\ beaconfreqreq_unmarshal bs = Ok f.
+Proof. exact beaconfreqreq_roundtrip. Qed.
+Print Assumptions C15_beaconfreqreq.
+
+Theorem C15_pingslotchannelreq : forall f dr, freq_ok f = true -> 0 <= dr <= 15 ->
+  exists bs, pingslotchannelreq_marshal f dr = Ok bs /\ pingslotchannelreq_unmarshal bs = Ok (f, dr).
+Proof. exact pingslotchannelreq_roundtrip. Qed.
+Print Assumptions C15_pingslotchannelreq.
+
+(* a channel-list CFList offered by ANY state encodes to 16 bytes and decodes
+   back, provided the custom channels' frequencies fit the field *)
+Theorem C15_offered_channel_cflist_encodes : forall (s : st) (v : pversion) fs,
+  get_cflist s v = Some (CFChannels fs) ->
+  (forall c, In c (up s) -> custom c = true -> freq_ok (freq c) = true) ->
+  exists bs, cflist_marshal (CFChannels fs) = Ok bs /\ List.length bs = 16%nat /\
+             cflist_unmarshal bs = Ok (CFChannels fs).
+Proof. exact offered_channel_cflist_encodes. Qed.
+Print Assumptions C15_offered_channel_cflist_encodes.
+
+(* a channel-mask CFList offered by any state with at most 96 channels encodes
+   and decodes back to the same masks minus trailing all-zero masks (finding
+   C15-3, same root as C04-1) - to exactly the same masks when the last one is
+   not all-zero *)
+Theorem C15_offered_mask_cflist_encodes : forall (s : st) (v : pversion) ms,
+  get_cflist s v = Some (CFMasks ms) -> zlen (up s) <= 96 ->
+  exists bs, cflist_marshal (CFMasks ms) = Ok bs /\ List.length bs = 16%nat /\
+             cflist_unmarshal bs = Ok (CFMasks (strip_trailing_zero_masks ms)).
+Proof. exact offered_mask_cflist_encodes. Qed.
+Print Assumptions C15_offered_mask_cflist_encodes.
+
+Theorem C15_mask_cflist_exact_when_last_nonzero : forall ms,
+  ms <> [] -> all_false (last ms []) = false -> strip_trailing_zero_masks ms = ms.
+Proof. exact strip_id. Qed.
+Print Assumptions C15_mask_cflist_exact_when_last_nonzero.
+
+(* non-vacuity: EU868 (configuration 32): two added channels, one outside the
+   CFList data-rate range; index -1 and 5 are errors; the CFList offers only the
+   first; US915 (configuration 44) with channels 64-71 disabled: last mask zero *)
+Example C15_example :
+  let s0 := match nth_error configs 32 with Some (_, _, _, s) => s | None => mkSt false 0 0 [] [] [] end in
+  let s := run s0 [AddChannel 867100000 0 5; AddChannel 867300000 6 6; Disable (-1); Disable 1] in
+  run_outcomes s0 [AddChannel 867100000 0 5; AddChannel 867300000 6 6; Disable (-1); Disable 1]
+    = [Ok tt; Ok tt; Err; Ok tt] /\
+  get_enabled_uplink_channel_indices s = [0; 2; 3; 4] /\ get_custom_uplink_channel_indices s = [3; 4] /\
+  get_uplink_channel s (-1) = Err /\ get_uplink_channel s 5 = Err /\
+  get_cflist s PV_1_0_2 = Some (CFChannels [867100000; 0; 0; 0; 0]) /\
+  get_uplink_channel_index_for_frequency_dr s 867300000 6 = Ok 4.
+Proof. vm_compute. repeat split; reflexivity. Qed.
